@@ -134,6 +134,36 @@ theorem class_ignores_everything (p : Params) (b : Behaviour) (s : State) (hs : 
   | term => simp [exitPlan, hself, hin, hterm, omin] at h1
   | kill => simp [exitPlan, hself, hin, hterm, omin] at h1; exact ⟨rfl, h1.symm⟩
 
+/-- The explorer used by the correspondence driver only reports stages in which
+Close really can return: every element of `outcomes` is the `returned` value of
+a state reachable by a run of the model. -/
+theorem outcomes_sound (p : Params) (b : Behaviour) (fuel : Nat) (s : State) (r : Stage × Nat)
+    (h : r ∈ outcomes p b fuel s) : ∃ as s', run p b s as = some s' ∧ s'.returned = some r := by
+  induction fuel generalizing s with
+  | zero => simp [outcomes] at h
+  | succ fuel ih =>
+    unfold outcomes at h
+    split at h
+    · rename_i r0 hr0
+      simp only [List.mem_singleton] at h
+      subst h
+      exact ⟨[], s, rfl, hr0⟩
+    · simp only at h
+      split at h
+      · split at h
+        · split at h
+          · rename_i t _ _ s1 hs1
+            obtain ⟨as, s', hrun, hret⟩ := ih s1 h
+            exact ⟨.tick (t - s.now) :: as, s', by simp [run, hs1, hrun], hret⟩
+          · simp at h
+        · simp at h
+      · rw [List.mem_eraseDups, List.mem_flatMap] at h
+        obtain ⟨s1, hs1, hr⟩ := h
+        rw [List.mem_filterMap] at hs1
+        obtain ⟨a, _, ha⟩ := hs1
+        obtain ⟨as, s', hrun, hret⟩ := ih s1 hr
+        exact ⟨a :: as, s', by simp [run, ha, hrun], hret⟩
+
 /-! ### Non-vacuity: concrete runs -/
 
 /-- An agent that reacts to nothing is killed: Close returns in stage `kill`. -/
